@@ -127,7 +127,7 @@ func (*hbits) Run(rc *core.RunCtx) *core.RunResult {
 	data := corpus.Data(s)
 	errorsCfg := rc.Config == "errors"
 	bf := bitsFormats[t.Intn(len(bitsFormats))]
-	mode := t.Intn(8) // 0..4 listing, 5 raw root, 6 raw path, 7 listing with many values
+	mode := t.Intn(10) // 0..4 listing, 5 raw root, 6 raw path, 7 listing with many values, 8..9 batch conversion
 	knobs := map[string]int{"cacheReadAheadSize": aheadKnobs[t.Intn(len(aheadKnobs))], "progressPrecision": precKnobs[t.Intn(len(precKnobs))]}
 	o := simos.New(t)
 	o.Disk.Benign = true
@@ -151,6 +151,9 @@ func (*hbits) Run(rc *core.RunCtx) *core.RunResult {
 	case 6:
 		prog = `first(.. | select(_is_decode_value? and (._buffer_root | ._path) == [] and ._stop > ._start and (._start % 8) == 0 and (._stop %% 8) == 0 and ._start > 0)) | tobytes`
 		prog = strings.ReplaceAll(prog, "%%", "%")
+	case 8, 9:
+		// one conversion of many values (shared resolved options) against one conversion per value
+		prog = `[limit(80; .. | select(_is_decode_value? and _is_scalar?))] | {batch: tovalue, single: map(tovalue)} | tojson`
 	default:
 		prog = fmt.Sprintf(listProg, limit)
 	}
@@ -205,8 +208,37 @@ func (*hbits) Run(rc *core.RunCtx) *core.RunResult {
 		}
 		return res
 	}
+	if mode >= 8 {
+		if failed {
+			return res
+		}
+		var bs struct {
+			Batch  []any `json:"batch"`
+			Single []any `json:"single"`
+		}
+		if err := json.Unmarshal(run.Res.Stdout, &bs); err != nil {
+			if !faulted {
+				viol("bad-listing", "batch-parse", "batch conversion output does not parse: %v: %q", err, firstN(string(run.Res.Stdout), 200))
+			}
+			return res
+		}
+		res.Nontrivial = len(bs.Batch) > 1
+		res.Probes["batch_values_checked"] += len(bs.Batch)
+		if len(bs.Batch) != len(bs.Single) {
+			viol("batch-differs", bf, "converting %d values in one call gives %d values", len(bs.Single), len(bs.Batch))
+			return res
+		}
+		for i := range bs.Batch {
+			if !jsonEqual(bs.Batch[i], bs.Single[i]) {
+				viol("batch-differs", bf, "value %d of a list converted in one call is rendered as %s, converted on its own as %s (bits_format %s)", i, firstN(fmt.Sprint(bs.Batch[i]), 160), firstN(fmt.Sprint(bs.Single[i]), 160), bf)
+				return res
+			}
+		}
+		return res
+	}
 	lines := strings.Split(string(run.Res.Stdout), "\n")
 	checked := 0
+	nested := map[string]model.Bits{}
 	for li, line := range lines {
 		if line == "" {
 			continue
@@ -226,8 +258,44 @@ func (*hbits) Run(rc *core.RunCtx) *core.RunResult {
 			viol("bad-listing", "range", "line %d has no numeric range: %q", li, firstN(line, 200))
 			return res
 		}
+		pathJSON, _ := json.Marshal(row[0])
+		rootJSON, _ := json.Marshal(rootPath)
 		if len(rootPath) != 0 {
-			res.Probes["nested_buffer_values_skipped"]++
+			// a value inside a nested buffer (decompressed, reassembled): the nested root's own
+			// tobytes (its whole buffer, listed before its children) is the reference - self
+			// consistency across two evaluations; the independent check of nested content is C15's
+			if string(pathJSON) == string(rootJSON) {
+				if hx, ok := row[4].(string); ok && bf == "hex" && int64(stop-start)%8 == 0 {
+					if b, err := hex.DecodeString(hx); err == nil && int64(len(b))*8 == int64(stop-start) {
+						nested[string(rootJSON)] = model.FromBytes(b, int64(len(b))*8)
+					}
+				}
+				continue
+			}
+			nb, ok := nested[string(rootJSON)]
+			if !ok || bf != "hex" {
+				res.Probes["nested_buffer_values_skipped"]++
+				continue
+			}
+			if start < 0 || stop < start || int64(stop) > int64(len(nb)) {
+				viol("range-outside-input", "nested-range", "value %v reports range %v..%v outside its nested buffer of %d bits", row[0], start, stop, len(nb))
+				return res
+			}
+			bits := nb.Slice(int64(start), int64(stop))
+			for k, leftPad := range []bool{true, false} {
+				got := row[4+k]
+				if m, isErr := got.(map[string]any); isErr {
+					if _, has := m["err"]; has {
+						continue
+					}
+				}
+				want, _ := expectedRendering(bf, bits, leftPad)
+				if !jsonEqual(got, want) {
+					viol("bits-differ", []string{"tobytes", "tobits"}[k]+":nested", "value %v range %v..%v inside nested buffer %s: %s is %s, the nested buffer's own bytes give %s", row[0], start, stop, rootJSON, []string{"tobytes", "tobits"}[k], firstN(fmt.Sprint(got), 200), firstN(fmt.Sprint(want), 200))
+					return res
+				}
+			}
+			res.Probes["nested_values_checked"]++
 			continue
 		}
 		if start < 0 || stop < start || int64(stop) > int64(len(fileBits)) {
